@@ -9,6 +9,11 @@ import GqlVerif.Model.SchemaVisitor
 import GqlVerif.Model.Transformer
 namespace Gql.Tie
 
+/-- the two lists hold the same names, each once (the generated lists are sorted, so the order in
+    which the source declares its methods does not matter) -/
+def sameNames (a b : List String) : Bool :=
+  a.length == b.length && a.all (fun x => b.contains x) && b.all (fun x => a.contains x)
+
 /-- the (enter, leave) callbacks of `trait OperationVisitor` a model node stands for -/
 def nodeCallbacks : Node → String × String
   | .document _ => ("enter_document", "leave_document")
@@ -35,9 +40,9 @@ def nodeSamples : List Node :=
    .selectionSet [], .field default, .spread default, .inline default, .nullValue, .scalar .null, .enumValue 0,
    .variable 0, .list [], .object [], .objectField default]
 
-/-- every callback of the trait is the enter or leave callback of one model node kind, in order -/
+/-- every callback of the trait is the enter or leave callback of one model node kind, and conversely -/
 theorem operation_callbacks_modelled :
-    Gen.operationVisitorCallbacks = nodeSamples.flatMap (fun n => [(nodeCallbacks n).1, (nodeCallbacks n).2]) := by decide
+    sameNames Gen.operationVisitorCallbacks (nodeSamples.flatMap (fun n => [(nodeCallbacks n).1, (nodeCallbacks n).2])) = true := by decide
 
 /-- and every model node kind stands for a pair of trait callbacks -/
 theorem operation_nodes_are_callbacks (n : Node) :
@@ -66,7 +71,7 @@ def snodeSamples : List SNode :=
    .scalarType default, .enumType default, .enumValue 0 0]
 
 theorem schema_callbacks_modelled :
-    Gen.schemaVisitorCallbacks = snodeSamples.flatMap (fun n => [(snodeCallbacks n).1, (snodeCallbacks n).2]) := by decide
+    sameNames Gen.schemaVisitorCallbacks (snodeSamples.flatMap (fun n => [(snodeCallbacks n).1, (snodeCallbacks n).2])) = true := by decide
 
 theorem schema_nodes_are_callbacks (n : SNode) :
     (snodeCallbacks n).1 ∈ Gen.schemaVisitorCallbacks ∧ (snodeCallbacks n).2 ∈ Gen.schemaVisitorCallbacks := by
@@ -100,7 +105,7 @@ def transformerMethodsExpected : List String :=
    "transform_variable_definitions", "default_transform_variable_definitions", "transform_variable_definition",
    "default_transform_variable_definition", "transform_list"]
 
-theorem transformer_methods_modelled : Gen.transformerMethods = transformerMethodsExpected := by decide
+theorem transformer_methods_modelled : sameNames Gen.transformerMethods transformerMethodsExpected = true := by decide
 
 theorem hooks_are_methods (h : HookId) : hookMethod h ∈ Gen.transformerMethods := by
   cases h <;> decide
